@@ -141,6 +141,10 @@ Fixpoint sites_walk (c : site_cfg) (w : wctx) (n : node) : list site :=
   here ++
   match n with
   | Node (K KBlock _ _) cs => go (with_block w) cs
+  | Node (K KOptChain _ _) [Node (Bln true) []; Node (K KCall _ _) ccs] =>
+      (* optional invocation  recv.m?.(..)  is a documented exclusion: the call itself is not a
+         site, its callee and arguments are ordinary code *)
+      go w ccs
   | Node (K KUnary _ _) (Node (Str "delete") [] :: cs) => go (with_excluded w) cs
   | Node (K KArrow _ _) [cx; params; body; asy; gen; tp; rt] =>
       sites_walk c (with_excluded w) params ++
